@@ -318,6 +318,33 @@ func (c *probeCheck) cancelProbe(run *histRun, step []stepIntent, byTimeout bool
 		}
 		defer func() { run.ds.Dev.SetHook = nil }()
 	}
+	if !byTimeout && run.rng.Chance(1, 4) {
+		// cancel, then the same request again under a new id, left to its timeout: the rollback timer of the cancelled
+		// transaction must be gone, or it strikes in the middle of the next transaction
+		how = "cancel-then-timeout"
+		byTimeout = true
+		// the cancelled transaction is about an intent of its own, so that its rollback cannot happen to undo the next one
+		tmp := []stepIntent{{Owner: "tmp", Prio: 4, Vals: map[string]string{"/sys/b-leaf": "bb"}, Kind: "create"}}
+		first := run.set(id, tmp, nil, 120*time.Millisecond, false)
+		if first.convErr != nil || first.panicked || first.err != nil || first.rejected {
+			run.res.Inconclusive("C05/valid-request-failed", "conv=%v err=%v rejected=%v step=%s", first.convErr, first.err, first.rejected, stepString(tmp))
+			return false
+		}
+		var cerr error
+		if apiCall(run.res, "TransactionCancel", func() { cerr = run.ds.TransactionCancel(run.ctx, id) }) {
+			return false
+		}
+		if cerr != nil {
+			run.res.Violate("C05/cancel-failed", "TransactionCancel(%s) returned %v; step=%s", id, cerr, stepString(step))
+			return false
+		}
+		id = run.nextID()
+		to = 250 * time.Millisecond
+		defer func() {
+			// let a stale timer of the cancelled transaction strike before the history goes on
+			time.Sleep(5 * time.Millisecond)
+		}()
+	}
 	out := run.set(id, step, nil, to, false)
 	run.canon = append(run.canon, strings.ToUpper(how)+" "+stepString(step))
 	if out.convErr != nil || out.panicked || out.err != nil || out.rejected {
@@ -332,10 +359,21 @@ func (c *probeCheck) cancelProbe(run *histRun, step []stepIntent, byTimeout bool
 				break
 			}
 			if time.Now().After(deadline) {
-				run.res.Violate("C05/timeout-did-not-release", "transaction still registered 10 s after its 20 ms timeout; step=%s", stepString(step))
+				run.res.Violate("C05/timeout-did-not-release", "transaction still registered 10 s after its %v timeout; step=%s", to, stepString(step))
 				return false
 			}
 			time.Sleep(time.Millisecond)
+		}
+		if how == "cancel-then-timeout" {
+			// the transaction may have been unregistered by something else than its own expiry: give its own timer the
+			// time to fire before looking at the stores
+			time.Sleep(to + 50*time.Millisecond)
+			for i := 0; i < 10000; i++ {
+				if id, _ := run.ds.VerifOpenTransaction(); id == "" {
+					break
+				}
+				time.Sleep(time.Millisecond)
+			}
 		}
 	} else {
 		var err error
